@@ -1,7 +1,7 @@
 """C08 — expansion work is bounded by the budget and the alias limits (DESIGN §4 C08)."""
 from ..mir import MissingAnchor, sym_contains
 from ..rules import render, limit_rule, must_pass, aggregates, bool_switches, last_seg
-from . import C07
+from . import C07, C11
 
 EXPLANATION = ("Static rules over the resolved MIR of the event source: LIMIT (the three alias limits are compared strictly with "
                "their own counters and yield their own errors), DOM (both push-side limits dominate the replay-frame push; the "
@@ -76,6 +76,9 @@ def run(ctx):
         C07.rule_replay(ctx, fx, config)
         # a replayed scalar is charged its full text, borrowed or not: it is materialised again in the target (shared rule with C07)
         C07.rule_scalar_bytes_operand(ctx, fx, config, prop="C08")
+        # recording frames, replay frames and anchor buffers do not outlive their document — also when a document is abandoned
+        # after an error: a frame left open clones every later event of the stream into itself (shared rule, C11)
+        C11.rule_reset(ctx, fx, config)
         # WHO-WRITES: the alias counters
         for fld in ("total_replayed_events", "per_anchor_expansions"):
             writers = set()
